@@ -450,24 +450,32 @@ def program_equivalence(prog1, prog2, compare_params=True, atol=1e-6, rtol=0):
         # relabel the DAG nodes to integers
         circuit.append(nx.convert_node_labels_to_integers(G))
 
-        # ``CXgate`` and ``BSgate`` are not symmetric with respect to permuting the order of the two
-        # modes it acts on; i.e., the order of the wires matter
+        # most operations are not symmetric with respect to permuting the order of the modes they
+        # act on; i.e., the order of the wires matter
         wire_mapping = {}
         for i, n in enumerate(G.nodes()):
-            # not a ``CXgate`` or a ``BSgate``, order of wires doesn't matter
-            # (but which wires the operation acts on does)
-            wire_mapping[i] = sorted(j.ind for j in n.reg)
+            wire_mapping[i] = [j.ind for j in n.reg]
+
+            # for operations that are symmetric (two-mode squeezing, controlled phase, cross-Kerr,
+            # measurements without post-selection and dark counts) the order of wires doesn't
+            # matter (but which wires the operation acts on does)
+            if n.op.__class__.__name__ in ("S2gate", "CZgate", "CKgate") or (
+                n.op.__class__.__name__ in ("MeasureFock", "MeasureThreshold")
+                and getattr(n.op, "select", None) is None
+                and getattr(n.op, "dark_counts", None) is None
+            ):
+                wire_mapping[i] = sorted(j.ind for j in n.reg)
 
             if n.op.__class__.__name__ == "CXgate":
                 # if the ``CXgate`` parameter is not 0, order matters
-                if not np.allclose(n.op.p[0], 0):
-                    wire_mapping[i] = [j.ind for j in n.reg]
+                if np.allclose(par_evaluate(n.op.p[0]), 0):
+                    wire_mapping[i] = sorted(j.ind for j in n.reg)
 
             elif n.op.__class__.__name__ == "BSgate":
                 # if the beamsplitter is not symmetric, order matters
                 bs_params = [j % np.pi for j in par_evaluate(n.op.p)]
-                if not np.allclose(bs_params, [np.pi / 4, np.pi / 2]):
-                    wire_mapping[i] = [j.ind for j in n.reg]
+                if np.allclose(bs_params, [np.pi / 4, np.pi / 2]):
+                    wire_mapping[i] = sorted(j.ind for j in n.reg)
 
         # add node attributes to store the operation wires
         nx.set_node_attributes(circuit[-1], wire_mapping, name="w")
